@@ -214,6 +214,9 @@ def class_clauses(cname, x, cfg, NFFT, s1, s2):
 
 
 def replay(rep):
+    if rep['replay'].get('protocol') == 'values_only':
+        from props import _purity
+        return _purity.replay_protocol(rep['replay'])
     r = rep['replay']
     if r.get('function') == 'arma2psd':
         A = vlib.unhexv(r['A']) if r['A'] is not None else None
@@ -495,3 +498,7 @@ def run(ctx):
                          sample={'class': cname + ' (search)', 'datatype': 'complex' if cplx else 'real', 'N': N, 'NFFT': NFFT, 'sampling': [s1, s2], 'cfg': cfg})
                 for key, what in bad:
                     ctx.violation(key, what, {'function': 'class', 'class': cname, 'data': vlib.hexv(x), 'cfg': cfg, 'NFFT': NFFT, 's1': s1.hex(), 's2': s2.hex()})
+
+    # ---------------- results depend on the VALUES given only: call protocol (repeat, aliasing, buffer reuse, memory layout, integer / single-precision dtypes)
+    from props import _purity
+    _purity.run_protocol(ctx, ['arma2psd'])
